@@ -1,10 +1,12 @@
 """Shared probes and circuit driving helpers (DESIGN.md 2.3)."""
 import asyncio
 import copy
+import datetime as _dt
 
 import edzed
 
 from . import vloop
+from . import vwall
 from .vloop import quiesce   # re-export
 
 UNDEF = edzed.UNDEF
@@ -120,6 +122,20 @@ class Running:
         return None
 
 
-def run_case(coro_func, *args, **kwargs):
-    """Run an async scenario on a fresh virtual loop after resetting edzed."""
-    return vloop.run(coro_func, *args, **kwargs)
+DEFAULT_WALL_START = _dt.datetime(2026, 3, 10, 12, 0, 0)
+
+
+def run_case(coro_func, *args, wall_start=DEFAULT_WALL_START, read_latency_us=0,
+             local_offset_s=0, **kwargs):
+    """Run an async scenario on a fresh virtual loop with a virtual wall clock.
+
+    The Wall object is available as loop.vwall.
+    """
+    def setup(loop):
+        wall = vwall.Wall(loop.vclock, wall_start, read_latency_us, local_offset_s)
+        loop.vwall = wall
+        vwall.set_wall(wall)
+    try:
+        return vloop.run(coro_func, *args, setup=setup, **kwargs)
+    finally:
+        vwall.clear_wall()
